@@ -70,6 +70,19 @@ pub fn formats(seed: u64, thorough: bool) -> Vec<BuildSpec> {
         out.push(spec(payload(&mut r, 1, 3, true), Some(e), None, Some(v), None, format!("fmt-auto:{v}:mask")));
         out.push(spec(payload(&mut r, 0, 5, true), None, Some(2), Some(v), Some(v % 8), format!("fmt-auto:{v}:level")));
     }
+    // every forced / automatic combination of the four options (16) x 4 levels x 8 masks on small symbols:
+    // an option must be honoured whatever else is or is not forced
+    for combo in 0..16usize {
+        for e in 0..4usize {
+            for m in 0..8usize {
+                let p: Vec<u8> = if (e + m) % 2 == 0 { b"HELLO WORLD 12345".to_vec() } else { payload(&mut r, 1, 6 + (e * 8 + m) % 9, true) };
+                let mode = if (combo + e + m) % 2 == 0 { 1 } else { 2 };
+                let ver = 3 + (e + m) % 3;
+                out.push(spec(p, if combo & 1 != 0 { Some(e) } else { None }, if combo & 2 != 0 { Some(mode) } else { None },
+                              if combo & 4 != 0 { Some(ver) } else { None }, if combo & 8 != 0 { Some(m) } else { None }, format!("optcombo:{combo}")));
+            }
+        }
+    }
     out
 }
 
